@@ -951,6 +951,7 @@ binary_mul_fns: dict[str, BinaryCallable] = {
     "/": lambda x, y: "Divide by zero" if y == 0 else x / y,
     "div": lambda x, y: "Divide by zero" if y == 0 else x / y,
     "mod": lambda x, y: binary_mod_fn(x, y),
+    "fmod": lambda x, y: "Divide by zero" if y == 0 else math.fmod(x, y),
 }
 
 binary_add_fns: dict[str, BinaryCallable] = {
